@@ -468,8 +468,9 @@ where
 				None => None,
 			};
 			let batch = batch.build()?;
+			let batch_len = batch.len();
 			let id = self.id_manager.next_request_id();
-			let id_range = generate_batch_id_range(id, batch.len() as u64)?;
+			let id_range = generate_batch_id_range(id, batch_len as u64)?;
 
 			let mut batch_request = Batch::with_capacity(batch.len());
 			for ((method, params), id) in batch.into_iter().zip(id_range.clone()) {
@@ -486,12 +487,10 @@ where
 
 			let rps = run_future_until_timeout(self.service.batch(batch_request), self.request_timeout).await?;
 
-			let mut batch_response = Vec::new();
-			let mut success = 0;
-			let mut failed = 0;
+			let mut batch_response = Vec::with_capacity(batch_len);
 
-			// Fill the batch response with placeholder values.
-			for _ in 0..rps.len() {
+			// Fill the batch response with placeholder values, one for each call in the request.
+			for _ in 0..batch_len {
 				batch_response.push(Err(ErrorObject::borrowed(0, "", None)));
 			}
 
@@ -501,13 +500,9 @@ where
 				let res = match ResponseSuccess::try_from(rp.into_inner()) {
 					Ok(r) => {
 						let v = serde_json::from_str(r.result.get()).map_err(Error::ParseError)?;
-						success += 1;
 						Ok(v)
 					}
-					Err(err) => {
-						failed += 1;
-						Err(err)
-					}
+					Err(err) => Err(err),
 				};
 
 				let maybe_elem = id
@@ -521,6 +516,10 @@ where
 					return Err(InvalidRequestId::NotPendingRequest(id.to_string()).into());
 				}
 			}
+
+			// Count the entries of the result, a call may have been answered more than once or not at all.
+			let success = batch_response.iter().filter(|r| r.is_ok()).count();
+			let failed = batch_response.len() - success;
 
 			Ok(BatchResponse::new(success, batch_response, failed))
 		}
